@@ -211,7 +211,7 @@ func gen(seed uint64, tier string) {
 	r := vproto.NewRng(seed)
 	n := 3000
 	if tier == "thorough" {
-		n = 40000
+		n = 120000
 	}
 	emit := func(l geom.Geom, p geom.Geom) {
 		fmt.Fprintf(out, "clip %s | %s\n", vproto.GeomToks(l), vproto.GeomToks(p))
